@@ -102,7 +102,7 @@ def oracle(c):
         if k == 'annuity':
             r, n, pv, fv, typ = c['r'], c['n'], c['pv'], c['fv'], c['typ']
             try:
-                g = (1 + r) ** n
+                g = (1.0 + r) ** n
             except OverflowError:
                 g = float('inf')
             if not math.isfinite(g) or g > 1e250 or g < 1e-6:
